@@ -10,6 +10,8 @@ from the property text; it is compared with the implementation in the same way (
 classified by the clause of the property that fails.  A third part drives real RollPass / Transport /
 PassSequence objects through `solve` and checks the root-hook sentences of the property on them.
 """
+import copy
+import itertools
 import re
 
 from . import common  # noqa: F401  (silences the pyroll loggers)
@@ -18,18 +20,25 @@ ID = "C02"
 LEAN_MODULES = ["PyrollProps.C02"]
 MODEL = "c02"
 MODEL_MODULES = ["PyrollModel.LifecycleDriver"]
-RULE = ("random operation histories (5-40 ops) over 1-3 fresh classes (linear hierarchies and independent roots, plain "
-        "HookHost or Unit.Profile based), 1-4 instances, 2-5 hooks; implementations and explicit callables are data "
-        "(constant incl. 0/False, None, read a lower-numbered hook and combine, read it if has_value) with "
-        "invocation logging; a case is one history, non-trivial = it contains a read that is served from each of at "
-        "least two different sources (explicit / remembered / computed) or a re-evaluation of a non-empty cache; "
-        "distinct by the canonical op list. Plus solved real pass sequences for the root-hook sentences.")
+RULE = ("random operation histories (5-40 ops, 40% of the ops stay on the previous (instance, hook) pair; a removal is "
+        "often followed by re-evaluation and a look at the hook that lost the implementation; root hooks declared up "
+        "front in half of the cases) over 1-3 fresh classes (linear hierarchies and independent roots, plain HookHost or "
+        "Unit.Profile based), 1-5 instances, 2-5 hooks; implementations and explicit callables are data (constant incl. "
+        "0/False, None, read a lower-numbered hook and combine, read it if has_value) with invocation logging; a case is "
+        "one history, non-trivial = it contains successful reads served from at least two different sources (explicit / "
+        "remembered / computed) or a re-evaluation of a non-empty cache; distinct by the canonical op list. Plus solved "
+        "real pass sequences (two passes, a transport between) for the root-hook sentences.")
 ASSUMPTIONS = [
     "CPython dict insertion order, descriptor protocol, inspect.signature arity and hasattr/getattr-default "
     "semantics are modelled, not verified",
-    "the model is tied to the code by sampled differential runs (full state compared after every op)",
-    "non-finite results (ValueError path of Hook.__get__) and cyclic hook dependencies (RecursionError path) are "
-    "outside this model: the generator produces acyclic reads only (they belong to C07 / C01)",
+    "the model is tied to the code by sampled differential runs (result, invocation trace and the ordered __dict__ / "
+    "__cache__ of every instance compared after every op)",
+    "outside this model (generator produces none of them; they belong to C07 / C01 / C16): non-finite results "
+    "(ValueError path of Hook.__get__), cyclic hook dependencies (per-(function, instance) cycle marks, RecursionError "
+    "path; the model's fuel stands for the recursion limit), wrappers and tryfirst/trylast tiers (the resolution "
+    "order used here is MRO-major, latest registration first)",
+    "hook values are integers and booleans (0 and False being the falsy ones); numpy values occur only in the "
+    "solved-sequence part",
 ]
 
 HOOK_RE = re.compile(r"^h(\d+)$")
@@ -471,7 +480,7 @@ def to_line(op):
     if n == "class":
         return f"class {op[1]} {comma(op[2])}"
     if n == "roots":
-        return "roots " + comma(f"{c}:{h}" for c, h in op[1])
+        return "roots " + comma([f"{c}:{h}" for c, h in op[1]])
     if n == "fb":
         return f"fb {op[1]} {'_' if op[2] is None else op[2]}"
     return " ".join(str(x) for x in op)
@@ -531,6 +540,7 @@ def gen_case(rng, max_ops):
         ops.append(("inst", c))
     next_id = [0]
     live = []
+    hook_of = {}
 
     def fresh():
         next_id[0] += 1
@@ -545,15 +555,29 @@ def gen_case(rng, max_ops):
             c = rng.randrange(ncls)
         ident = fresh()
         live.append(ident)
+        hook_of[ident] = n
         return ("add", ident, c, n, gen_body(rng, n))
 
-    for _ in range(rng.randrange(0, 5)):
+    for _ in range(rng.choice([0, 1, 2, 3, 3, 4, 5, 6])):
         ops.append(add_impl())
+    if rng.random() < 0.5:
+        # root hooks declared up front (as pyroll/core/__init__.py does), owned by classes the instances resolve through
+        roots = []
+        for _ in range(rng.randrange(1, 4)):
+            e = (rng.choice(mros[rng.choice(inst_cls)]), rng.randrange(nh))
+            if e not in roots:
+                roots.append(e)
+        ops.append(("roots", roots))
     n_ops = rng.randrange(5, max_ops + 1)
     count = 0
+    last = None
     while count < n_ops:
-        i = rng.randrange(len(inst_cls))
-        n = rng.randrange(nh)
+        if last is not None and last[0] < len(inst_cls) and rng.random() < 0.4:
+            i, n = last          # stay on the same (instance, hook): assign -> read -> delete -> read, reeval -> has_cached ...
+        else:
+            i = rng.randrange(len(inst_cls))
+            n = rng.randrange(nh)
+        last = (i, n)
         r = rng.random()
         if r < 0.27:
             op = ("read", i, n)
@@ -584,6 +608,16 @@ def gen_case(rng, max_ops):
             ident = rng.choice(live)
             live.remove(ident)
             op = ("remove", ident)
+            if rng.random() < 0.4:
+                # scripted follow-up: the registry changed - re-evaluate, then look at the hook that lost an implementation
+                # (reaches the remembered-None state: has_cached stays true, reads recompute)
+                n = hook_of[ident]
+                ops.append(op)
+                ops.append(("reeval", i))
+                ops.append((rng.choice(["hascached", "hassoc", "read", "hasvalue"]), i, n))
+                count += 3
+                last = (i, n)
+                continue
         elif r < 0.86:
             op = (rng.choice(["hasset", "hascached", "hassoc", "hasvalue", "hasvalue"]), i, n)
         elif r < 0.90:
@@ -653,9 +687,20 @@ def run_case(case, want_obs=False):
         r_out = real.apply(op)
         r_tr = list(real.log)
         r_st = real.state()
+        before = copy.deepcopy(ref) if op[0] == "reeval" and order and len(order) <= 5 else None
         e_out = ref.apply(op, order)
         e_tr = list(ref.trace)
         e_st = ref.state()
+        if before is not None and (r_out != e_out or r_tr != e_tr or dump(r_st, False) != dump(e_st, False)):
+            # the property does not fix the ORDER in which the remembered names are recomputed (the code and the model
+            # use dict order); accept any order that explains the observation - then only the tie is broken
+            for perm in itertools.permutations(order):
+                alt = copy.deepcopy(before)
+                a_out = alt.apply(op, list(perm))
+                if a_out == r_out and list(alt.trace) == r_tr and dump(alt.state(), False) == dump(r_st, False):
+                    ref, e_out, e_tr, e_st = alt, a_out, list(alt.trace), alt.state()
+                    sources.add("reeval-other-order")
+                    break
         if src and r_out.startswith("val"):
             sources.add(src.split("-")[0])
         obs.append(f"{r_out} | {comma(r_tr)} | {dump(r_st)}")
@@ -693,8 +738,15 @@ def shrink(case, k, key):
     return ops
 
 
+REPORTED = {}
+
+
 def report(ctx, case, bad):
     k, key, info = bad
+    REPORTED[key] = REPORTED.get(key, 0) + 1
+    if REPORTED[key] > 3:           # enough replays of this kind; keep the run short
+        ctx.count("further-violations:" + key)
+        return
     small = shrink(case, k, key)
     _, bad2, _ = run_case({**case, "ops": small})
     if bad2 is not None:
@@ -733,6 +785,14 @@ CORPUS = [
                                             ("clear", 0), ("read", 0, 0), ("handover", 0, 0), ("read", 2, 0),
                                             ("hascached", 2, 2), ("hasset", 2, 1), ("evalroot", 1), ("fb", 1, 0),
                                             ("evalroot", 1), ("read", 1, 0)]},
+    # explicit None over a remembered value: served from the cache silently; results of explicit callables are not
+    # remembered; root evaluation prefers the implementations and falls back only when they give None
+    {"mode": "host", "nhooks": 3, "ops": [("class", 0, [0]), ("inst", 0), ("inst", 0), ("add", 0, 0, 0, "const:i3"),
+                                         ("read", 0, 0), ("assign", 0, 0, "N"), ("read", 0, 0), ("hasset", 0, 0),
+                                         ("assign", 0, 1, "c1:1:read:0:2:0"), ("read", 0, 1), ("hascached", 0, 1),
+                                         ("assign", 0, 2, "c0:2:i0"), ("read", 0, 2), ("hascached", 0, 2),
+                                         ("roots", [(0, 0)]), ("fb", 1, 0), ("assign", 0, 0, "p:i9"), ("evalroot", 1),
+                                         ("remove", 0), ("evalroot", 1), ("reeval", 1), ("read", 1, 0)]},
 ]
 
 
@@ -836,7 +896,8 @@ def real_units(ctx, n):
 
 # ---------------------------------------------------------------------------------------------------------------
 def run(ctx):
-    n_hist = ctx.budget(800, 30000)
+    REPORTED.clear()
+    n_hist = ctx.budget(3000, 60000)
     max_ops = 40
     cases = [dict(c) for c in CORPUS]
     for _ in range(n_hist):
@@ -846,7 +907,7 @@ def run(ctx):
     for idx, case in enumerate(cases):
         obs, bad, sources = run_case(case, want_obs=True)
         canon = [case["mode"], case["nhooks"]] + [to_line(o) for o in case["ops"]]
-        ctx.case(canon, nontrivial=len(sources - {"reeval"}) >= 2 or "reeval" in sources)
+        ctx.case(canon, nontrivial=len(sources - {"reeval", "reeval-other-order"}) >= 2 or "reeval" in sources)
         ctx.count("mode:" + case["mode"])
         for o in case["ops"]:
             ctx.count("op:" + o[0])
@@ -886,7 +947,7 @@ def run(ctx):
             ctx.disagreement("model output length mismatch", {"expected": pos, "got": len(out)})
 
     # ---- real units -----------------------------------------------------------------------------------------
-    real_units(ctx, ctx.budget(4, 40))
+    real_units(ctx, ctx.budget(5, 40))
 
 
 def replay(ctx, data):
